@@ -193,3 +193,65 @@ Section HierSpec.
       apply (hier_backend_spec s rs rt pf _ Ors NF).
   Qed.
 End HierSpec.
+
+(** * Every exposed resource of a layout is enumerated once *)
+
+Lemma NoDup_app_intro_spec {A} (a b : list A) :
+  NoDup a -> NoDup b -> (forall x, In x a -> In x b -> False) -> NoDup (a ++ b).
+Proof.
+  intros Ha Hb D. induction Ha as [|x a Nin Ha IH]; [exact Hb|].
+  cbn [app]. constructor.
+  - intros Hin. apply in_app_or in Hin. destruct Hin as [Hin|Hin]; [contradiction|].
+    apply (D x); [left; reflexivity|exact Hin].
+  - apply IH. intros y Hy. apply D. right. exact Hy.
+Qed.
+
+Lemma nodup_map_inj {A B} (f : A -> B) (l : list A) :
+  (forall a b, In a l -> In b l -> f a = f b -> a = b) -> NoDup l -> NoDup (map f l).
+Proof.
+  intros Inj ND. induction ND as [|a l Nin ND IH]; [constructor|].
+  cbn [map]. constructor.
+  - intros Hin. apply in_map_iff in Hin. destruct Hin as [b [E Hb]].
+    assert (b = a) by (apply Inj; [right; exact Hb|left; reflexivity|exact E]). subst b. contradiction.
+  - apply IH. intros x y Hx Hy. apply Inj; right; assumption.
+Qed.
+
+Theorem all_pos_paths_nodup : forall h, hier_ok h = true -> NoDup (map (pos_rest h) (all_pos h)).
+Proof.
+  intros h OK. unfold all_pos. cbn [map pos_rest].
+  set (u := h_user h). set (hm := h_home h).
+  set (blk := fun c => ([u; hm; hc_name c] : list string)
+                       :: map (fun o => [u; hm; hc_name c; ho_name o]) (hc_objs c)).
+  assert (E : map (pos_rest h) (flat_map (fun c => PColl c :: map (PObj c) (hc_objs c)) (h_colls h))
+              = flat_map blk (h_colls h)).
+  { induction (h_colls h) as [|c r IH]; [reflexivity|].
+    cbn [flat_map]. rewrite map_app, IH. cbn [map pos_rest]. rewrite map_map. reflexivity. }
+  rewrite E. clear E.
+  assert (LEN : forall q, In q (flat_map blk (h_colls h)) -> 3 <= List.length q).
+  { intros q Hq. apply in_flat_map in Hq. destruct Hq as [c [_ [<-|Hq]]]; [cbn; lia|].
+    apply in_map_iff in Hq. destruct Hq as [o [<- _]]. cbn. lia. }
+  constructor; [intros [H|[H|H]]; try discriminate H; apply LEN in H; cbn in H; lia|].
+  constructor; [intros [H|H]; try discriminate H; apply LEN in H; cbn in H; lia|].
+  constructor; [intros H; apply LEN in H; cbn in H; lia|].
+  clear LEN.
+  pose proof (ok_cnodup h OK) as NDc.
+  assert (NDo : forall c, In c (h_colls h) -> NoDup (map ho_name (hc_objs c))).
+  { intros c Hc. apply (ok_objs h OK c Hc). }
+  induction (h_colls h) as [|c r IH]; [constructor|].
+  cbn [flat_map map] in *. inversion NDc as [|? ? Nin NDr]; subst.
+  apply NoDup_app_intro_spec.
+  - unfold blk. constructor.
+    + intros Hin. apply in_map_iff in Hin. destruct Hin as [o [Eo _]]. discriminate Eo.
+    + rewrite <- (map_map ho_name (fun n => [u; hm; hc_name c; n])).
+      apply nodup_map_inj; [|apply NDo; left; reflexivity].
+      intros a b _ _ Eab. inversion Eab. reflexivity.
+  - apply IH; [exact NDr|]. intros c' Hc'. apply NDo. right. exact Hc'.
+  - intros q H1 H2. apply in_flat_map in H2. destruct H2 as [c' [Hc' H2]].
+    assert (Ne : hc_name c' <> hc_name c).
+    { intros En. apply Nin. rewrite <- En. apply in_map. exact Hc'. }
+    assert (T1 : nth 2 q "" = hc_name c).
+    { destruct H1 as [<-|H1]; [reflexivity|]. apply in_map_iff in H1. destruct H1 as [o [<- _]]. reflexivity. }
+    assert (T2 : nth 2 q "" = hc_name c').
+    { destruct H2 as [<-|H2]; [reflexivity|]. apply in_map_iff in H2. destruct H2 as [o [<- _]]. reflexivity. }
+    congruence.
+Qed.
